@@ -198,7 +198,7 @@ impl Prop for C09 {
     fn runs(&self, tier: Tier) -> u64 {
         match tier {
             Tier::Quick => 30_000,
-            Tier::Thorough => 1_500_000,
+            Tier::Thorough => 4_000_000,
         }
     }
     fn rule(&self) -> &'static str {
